@@ -109,7 +109,7 @@ theorem cloneWithPrefixes_representable (env : Env) (f : Forest) (inv : f.Inv)
     rcases List.mem_append.mp hx with h | h
     · exact hA x h
     · exact (hNew x h).cat
-  have hdecls : declsOfKids (A ++ New ++ B) = (A ++ New).filterMap (fun k => fcNsPair k.value) :=
+  have hdecls : fcDeclsOfKids (A ++ New ++ B) = (A ++ New).filterMap (fun k => fcNsPair k.value) :=
     declsOfKids_split (A ++ New) B hAN hB
   -- the new leaves
   have hNl : ∀ x ∈ eraseList New, ∃ p ns, x = .node (.namespace p ns) [] ∧ valueOK env (.namespace p ns) = true := by
@@ -118,7 +118,7 @@ theorem cloneWithPrefixes_representable (env : Env) (f : Forest) (inv : f.Inv)
     obtain ⟨y, hy, rfl⟩ := List.mem_map.mp hx
     obtain ⟨h, p, ns, rfl⟩ := hNew y hy
     refine ⟨p, ns, rfl, ?_⟩
-    have hmem : (p, ns) ∈ declsOfKids (A ++ New ++ B) := by
+    have hmem : (p, ns) ∈ fcDeclsOfKids (A ++ New ++ B) := by
       rw [hdecls]
       exact List.mem_filterMap.mpr ⟨_, List.mem_append_right _ hy, rfl⟩
     rcases hsub _ hmem with h1 | ⟨h1, -⟩
